@@ -270,11 +270,11 @@ Definition fees_vq (p : params) (s : state) (proposer : option N) (n_eligible : 
     else
       let per := lbf / n_eligible in
       let denom := p_w_vote p + p_w_next p in
-      if denom =? 0 then (RFatal, s)
-      else
-        let share_next := per * p_w_next p / denom in
-        let share_vote := per - share_next in
-        let next_total := share_next * N.of_nat (length voters) in
+      (* fees.go (repaired): with vote + next-propose weight = 0 nothing is owed to voters or
+         the next proposer; everything goes to the common pool *)
+      let share_next := if denom =? 0 then 0 else per * p_w_next p / denom in
+      let share_vote := if denom =? 0 then 0 else per - share_next in
+      let next_total := share_next * N.of_nat (length voters) in
         let step1 :=
           match proposer with
           | Some pa =>
@@ -390,6 +390,38 @@ Definition add_reward_single (s : state) (scale : option N) (factor num den addr
         end
   end.
 
+(* state.go:953-1090 TransferFromCommon (repaired: a pool slashed to zero with shares
+   outstanding cannot take the commission deposit; the commission then stays in the general
+   balance). rate = current commission rate of the destination. *)
+Definition transfer_from_common (s : state) (to amount rate : N) (escrow : bool) : rc * state :=
+  let moved := N.min (common_pool s) amount in
+  if moved =? 0 then (ROk, s)
+  else
+    let s1 := add_general to moved (with_common s (common_pool s - moved)) in
+    if negb escrow then (ROk, s1)
+    else
+      let split :=
+        if tsh (active (acct s1 to)) =? 0 then Some (moved, 0)   (* nothing escrowed before: all commission *)
+        else commission rate moved in
+      match split with
+      | None => (RFatal, s)
+      | Some (com, rest) =>
+          if general (acct s1 to) <? rest then (RFatal, s)
+          else
+            let s2 := if tsh (active (acct s1 to)) =? 0 then s1
+                      else add_active_bal to rest (sub_general to rest s1) in
+            let pl := active (acct s2 to) in
+            let dead := (bal pl =? 0) && negb (tsh pl =? 0) in
+            if (com =? 0) || dead then (ROk, s2)
+            else
+              match shares_for_stake pl com with
+              | None => (RFatal, s)
+              | Some m =>
+                  if general (acct s2 to) <? com then (RFatal, s)
+                  else (ROk, mint_active to to m (add_active_bal to com (sub_general to com s2)))
+              end
+      end.
+
 (* staking.go:245-320 onEpochChange, one expired queue entry. The shares are
    those of the stored entry (the queue is read once before the loop, entries
    have distinct keys and a step only removes its own key). *)
@@ -450,7 +482,8 @@ Inductive op :=
 | OFeesP (proposer : option N)
 | ODebondAll (epoch : N)
 | OGovReclaim (to amount : N)
-| OGovDiscard (amount : N).
+| OGovDiscard (amount : N)
+| OTransferFromCommon (to amount rate : N) (escrow : bool).
 
 Definition step (p : params) (s : state) (o : op) : rc * state :=
   match o with
@@ -463,6 +496,7 @@ Definition step (p : params) (s : state) (o : op) : rc * state :=
   | ODebondAll ep => debond_all s ep
   | OGovReclaim to amt => gov_reclaim s to amt
   | OGovDiscard amt => gov_discard s amt
+  | OTransferFromCommon to amt rate esc => transfer_from_common s to amt rate esc
   end.
 
 Definition run (p : params) (s : state) (ops : list op) : state :=
@@ -558,3 +592,26 @@ Definition run_diag (ce : kcase * kout) :=
        (filter (fun r => negb (arow_matches s r)) (d_accts d)),
    (map_matches k2_eqb (deleg s) (d_deleg d), map_matches k3_eqb (debdeleg s) (d_deb d)),
    [total_supply s; common_pool s; last_block_fees s; gov_deposits s; fee_acc s]).
+
+(* ---------- the invariant as a boolean (proved equivalent to Inv in Ledger/InvB.v) ---------- *)
+Fixpoint nodupb {K} (keq : K -> K -> bool) (l : list K) : bool :=
+  match l with
+  | [] => true
+  | x :: r => negb (existsb (keq x) r) && nodupb keq r
+  end.
+(* every address that owns an account entry or is the escrow side of a (debonding) delegation *)
+Definition escrows (s : state) : list N :=
+  map fst (accts s) ++ map (fun kv : k2 * N => fst (fst kv)) (deleg s)
+  ++ map (fun kv : k3 * N => fst (fst (fst kv))) (debdeleg s).
+Definition shares_ok_b (s : state) (e : N) : bool :=
+  (tsh (active (acct s e)) =? dsum e s) && (tsh (debonding (acct s e)) =? bsum e s).
+Definition inv_b (s : state) : bool :=
+  nodupb N.eqb (map fst (accts s)) && nodupb k2_eqb (map fst (deleg s)) && nodupb k3_eqb (map fst (debdeleg s))
+  && forallb (shares_ok_b s) (escrows s)
+  && (total_supply s =? buckets s).
+
+(* K additionally evaluates the invariant on the implementation's own dumps *)
+Definition run_check_inv (ce : kcase * kout) : bool :=
+  run_check ce
+  && inv_b (state_of_dump (snd (fst (fst ce))))
+  && inv_b (state_of_dump (snd (snd ce))).
